@@ -78,6 +78,13 @@ def unitTangentTowards (r : K → K) (p q : Fin (n + 1) → K) : Fin (n + 1) →
 def angleCos (r : K → K) (p v₁ v₂ : Fin (n + 1) → K) : K :=
   mink (projHyp p (tvNormalizedVec r p v₁)) (projHyp p (tvNormalizedVec r p v₂))
 
+/-- `TangentVector.angle(other)` when `other` stores its own basepoint `q` (the same point of hyperbolic
+space, possibly the representative on the other sheet): the product is multiplied by `-1` when
+`⟨p, q⟩ > 0` (repaired: `(x, v)` and `(-x, -v)` are the same tangent vector) -/
+def angleCosPair (r : K → K) (p v₁ q v₂ : Fin (n + 1) → K) : K :=
+  (if mink p q > 0 then -1 else 1)
+    * mink (projHyp p (tvNormalizedVec r p v₁)) (projHyp p (tvNormalizedVec r q v₂))
+
 /-- repaired `TangentVector.angle` argument: `np.clip(product, -1, 1)` (the unclamped product can
 round just outside `[-1, 1]` for parallel vectors, and `arccos` then returns NaN) -/
 def angleCosClamped (r : K → K) (p v₁ v₂ : Fin (n + 1) → K) : K :=
